@@ -24,7 +24,7 @@ CHECKS = {
          "DESIGN.md §4 C06"),
  "C07": ("formula skeleton + polarity + sibling identity",
          "Decides structural necessary conditions of the pricing formula: skeleton and clamp of the pricing routine, time-window polarity, one routine for charge and record, volume key roles, parsed pricing stored with the text, no fee in super mode. "
-         "Tier selection, discount range and the numeric result are not decided.",
+         "Also decided: the tier boundary (volume < threshold is the only comparison), tiers validated ascending for every adjacent pair, the schema's discount pattern admits only 0.d…d with a non-zero last digit (regexp syntax tree), price never empty, module-service contexts never in super mode. The numeric result is not decided.",
          "A-SDK; discounts in (0,1) by JSON schema (not decided). Trusted base: go/types, x/tools v0.29.0, svclint rule tables.",
          "DESIGN.md §4 C07"),
  "C08": ("expression agreement + admission guard dominance + must-delete on all paths",
@@ -39,7 +39,7 @@ CHECKS = {
  "C10": ("finite case analysis of the expiry handler + guard/skeleton rules",
          "Decides creation/continuation structure: first batch at the call block iff RUNNING, survival of batch expiry iff not completed and a batch is left (exact predicate), next-height skeleton, frequency>=timeout on stored values, "
          "no second batch in flight. Exact cadence arithmetic and the bound over unbounded histories are not decided.",
-         "A-SDK (ValidateBasic before handler). Trusted base: go/types, x/tools v0.29.0, svclint rule tables.",
+         "A-SDK (ValidateBasic before handler). Known finding: D4 (no-exchange-rate exit). Trusted base: go/types, x/tools v0.29.0, svclint rule tables.",
          "DESIGN.md §4 C10"),
  "C11": ("must-dequeue / exactly-one-successor path rules + sibling pairing",
          "Decides the safety invariant standing in for liveness: queue and pointer (and both marker indexes) move together, every handler exit dequeues, every RUNNING path leaves exactly one successor event, enqueue height shapes, context deletion only by the expiry handler. "
@@ -87,7 +87,7 @@ CHECKS = {
          "DESIGN.md §4 C15"),
  "C17": ("sibling agreement by effect signature + read-only + reconstruction provenance",
          "Decides that gRPC methods and legacy routes are in bijection by (operation, family, builder, request-field roles), all query entries are read-only, GetRequest reconstructs every field from the right source, ids are length-checked, scans are exact. "
-         "Marshalled bytes and pagination are not decided.",
+         "Also decided: no branch on the query paths tests a rewritable field of another stored record, list queries neither filter on record content nor cut the collected list, the assembled parameter set is field-exact. Marshalled bytes and store-level pagination are not decided.",
          "Known finding: D5 (earned-fees scan). Trusted base: go/types, x/tools v0.29.0, svclint rule tables.",
          "DESIGN.md §4 C17"),
  "C19": ("provenance of zero-height refunds + codec/enum table agreement + field coverage",
@@ -97,7 +97,7 @@ CHECKS = {
          "DESIGN.md §4 C19"),
  "C20": ("determinism lint + map-range classification + panic inventory with path facts",
          "Decides structural necessary conditions of determinism and crash-freedom over the 229 consensus-reachable functions: banned constructs, classified map ranges, explicit panics / unchecked assertions / every index and slice expression justified by a dominating length fact or a listed invariant, "
-         "mutation during iteration only at the cursor. Replay identity, sdk.Int/Dec overflow and third-party panics are not decided.",
+         "mutation during iteration only at the cursor, integer divisions by a divisor shown non-zero, map-entry writes only into maps that cannot be nil, slash fraction and tax kept in range by their registered validators, both module callbacks registered before a module context is stored. Replay identity, sdk.Int/Dec overflow and third-party panics are not decided.",
          "A-SDK, A-HOST. Trusted base: go/types, x/tools v0.29.0, svclint rule tables.",
          "DESIGN.md §4 C20"),
  "C18": ("key-grammar decision + layout agreement",
@@ -129,7 +129,7 @@ def main():
                 "engine": "svclint",
                 "level_claimed": {"category": "other", "text": text, "design_ref": ref},
                 "level_note": note + " Every check also decides the shared preconditions S1 (no mutable module state outside the store in entry-reachable code), "
-                              "S2 (records decoded in loops go into fresh targets) and S3 (no pointer to a loop variable outlives its iteration), on which reading state off store operations relies.",
+                              "S2 (records decoded in loops go into fresh targets), S3 (no pointer to a loop variable — or to one variable appended repeatedly — outlives its iteration), S4 (scans are exhaustive) and S5 (stored bytes are not aliased), on which reading state off store operations relies.",
                 "technique": "static analysis: " + tech,
             })
         else:
